@@ -129,6 +129,35 @@ def history_unit(u) -> Stats:
 LOOPY = ("factory_cheerleader", "covg_fn_generator", "k_budget_generator", "xs2", "xs3", "xs6", "graph_ws_connected", "graph_cycle")
 
 
+_SPLITS: dict = {}
+
+
+def split_index(n: int):
+    """(a, b, u) index arrays of all proper splits u = a + b (a < b) for n players."""
+    if n not in _SPLITS:
+        aa, bb, uu = [], [], []
+        for u_ in range(1, 1 << n):
+            for a, b in A.proper_splits(u_):
+                aa.append(a)
+                bb.append(b)
+                uu.append(u_)
+        _SPLITS[n] = (np.array(aa, dtype=np.intp), np.array(bb, dtype=np.intp), np.array(uu, dtype=np.intp))
+    return _SPLITS[n]
+
+
+def suspicious(n: int, vals) -> bool:
+    """Float pre-screen for the long windows: some split clearly exceeds the documented tolerance, or a value is not finite. A hit is
+    decided by the exact class check; a miss within rounding of the threshold is what the every-64th-seed exact check is for."""
+    v = np.asarray(vals, dtype=np.float64)
+    if not np.all(np.isfinite(v)):
+        return True
+    a, b, u_ = split_index(n)
+    if not len(a):
+        return False
+    ex = v[a] + v[b] - v[u_]
+    return bool(np.any(ex > 2e-9 * np.abs(v[u_]) + 1e-300))
+
+
 def sweep_unit(u) -> Stats:
     """Determinism over a LONG seed window for one generator and player count: two identically seeded calls per seed."""
     name, n, lo, hi = u
@@ -147,12 +176,90 @@ def sweep_unit(u) -> Stats:
             st.violation(f"[generator {name} n={n} seed={seed}] identically seeded calls returned different games: {v1.tolist()[:12]}... vs {v2.tolist()[:12]}...",
                          generator=name, n=n, gen_seed=seed)
             return st
-        if seed % 64 == 0:
+        if seed % 64 == 0 or suspicious(n, v1):
             msg = class_check(name, n, v1)
             if msg:
                 st.violation(f"[generator {name} n={n} seed={seed}] {msg}", generator=name, n=n, gen_seed=seed)
                 return st
     st.nontrivial += hi - lo
+    return st
+
+
+_TAIL = None
+
+
+def tail_rng(seed: int, mode: str):
+    """E4-style ownership of randomness: a numpy Generator whose CONTINUOUS draws (random / uniform / normal) sit at the 1e-6 or 1 - 1e-6
+    quantile of their distribution - all low, all high, or alternating - while discrete draws come from the real seeded bit generator.
+    Every such draw is a value the real generator can return; whole regions of the distribution that leave the class show up without
+    waiting for a rare seed."""
+    global _TAIL
+    if _TAIL is None:
+        class TailRNG(np.random.Generator):
+            def __init__(self, seed, mode):
+                super().__init__(np.random.PCG64(seed))
+                self._mode, self._k = mode, 0
+
+            def _q(self, size):
+                lo, hi = 1e-6, 1 - 1e-6
+                m = 1 if size is None else int(np.prod(size))
+                if self._mode == "lo":
+                    q = np.full(m, lo)
+                elif self._mode == "hi":
+                    q = np.full(m, hi)
+                else:
+                    q = np.array([lo if (self._k + i) % 2 == (self._mode == "alt1") else hi for i in range(m)])
+                self._k += m
+                return float(q[0]) if size is None else q.reshape(size)
+
+            def random(self, size=None, dtype=np.float64, out=None):
+                return self._q(size)
+
+            def uniform(self, low=0.0, high=1.0, size=None):
+                if size is None and (np.ndim(low) or np.ndim(high)):
+                    size = np.broadcast(low, high).shape
+                return low + self._q(size) * (np.asarray(high) - low)
+
+            def normal(self, loc=0.0, scale=1.0, size=None):
+                if size is None and (np.ndim(loc) or np.ndim(scale)):
+                    size = np.broadcast(loc, scale).shape
+                q = self._q(size)
+                z = np.where(np.asarray(q) < 0.5, -4.753424, 4.753424)
+                r = loc + z * scale
+                return float(r) if size is None else r
+
+            def standard_normal(self, size=None, dtype=np.float64, out=None):
+                return self.normal(0.0, 1.0, size)
+        _TAIL = TailRNG
+    return _TAIL(seed, mode)
+
+
+def tail_unit(u) -> Stats:
+    """Every generator that draws its weights itself (not through networkx geometry) with the continuous draws pushed into both tails."""
+    from incomplete_cooperative.generators import GENERATORS
+    _, names, ns, seeds = u
+    st = Stats()
+    for name in names:
+        for n in ns:
+            for sd in seeds:
+                for mode in ("lo", "hi", "alt0", "alt1"):
+                    st.states += 1
+                    st.transitions += 1
+                    st.evals += 1
+                    try:
+                        g = GENERATORS[name](n, tail_rng(sd, mode))
+                        vals = np.asarray(g.get_values(), dtype=np.float64)
+                        msg = class_check(name, n, vals)
+                        st.outcomes.add(hash(vals.tobytes()))
+                    except Exception as e:  # noqa: BLE001
+                        msg = f"raised {type(e).__name__}: {e}"
+                    if msg:
+                        st.violation(f"[generator {name} n={n} seed={sd}] with every continuous draw at the {mode} tail quantile (1e-6 / 1 - 1e-6): {msg}",
+                                     generator=name, n=n, gen_seed=sd, tail=mode)
+                        if st.nviol >= 3:
+                            return st
+                    else:
+                        st.nontrivial += 1
     return st
 
 
@@ -231,7 +338,17 @@ def run(run: Run) -> None:
             base0 = span * seed
             for lo in range(base0, base0 + span, 512):
                 sweeps.append((name, n, lo, lo + 512))
+    # generators whose weights come from a continuous distribution: a tail of the distribution that leaves the class shows only for rare seeds
+    for name in ("noisy_factory", "noisy_factory_square", "noisy_factory_exp", "noisy_factory_fixed"):
+        if name in gens.names() and not gens.is_unseeded(name):
+            for n in ((5,) if quick else (4, 5, 6)):
+                base0 = span * seed
+                for lo in range(base0, base0 + span, 512):
+                    sweeps.append((name, n, lo, lo + 512))
     run.add(fanout(sweep_unit, sweeps, chunk=1))
+    # geometric graph models place points with the continuous draws: equal quantiles put every point on the same spot (a probability-zero tie)
+    tail_names = [g for g in gens.names() if not g.startswith("graph_geographical")]
+    run.add(fanout(tail_unit, [("tail", tail_names[i::8], [3, 4, 5] if quick else [3, 4, 5, 6], seeds[:2]) for i in range(8)], chunk=1))
     seeded = [g for g in gens.names() if not gens.is_unseeded(g)]
     run.add(fanout(interpreter_unit, [("interpreters", seeded[i::4], [3, 4, 5] if quick else [3, 4, 5, 6], seeds[:2] if quick else seeds[:6]) for i in range(4)], procs=4, chunk=1))
     from ..core import fresh_forks
@@ -240,12 +357,17 @@ def run(run: Run) -> None:
     run.add(fresh_forks(history_unit, hus, procs=14))
     run.rule += (f"; determinism over a long seed window [{span}*VERIF_SEED, +{span}) for the generators with data-dependent loops (all cheap seeded "
                  "generators in the thorough tier)")
-    run.rule += ("; every seeded generator x n = 3..5 x two seeds drawn in SEPARATE interpreters under PYTHONHASHSEED 0 / 1 / 4242: bit-identical"
+    run.rule += ("; every generator with its continuous draws owned by the harness (all at the 1e-6 quantile, all at 1 - 1e-6, alternating): class membership"
+                 "; every seeded generator x n = 3..5 x two seeds drawn in SEPARATE interpreters under PYTHONHASHSEED 0 / 1 / 4242: bit-identical"
                  "; call histories: for every seeded generator, in a freshly forked process, every ordered pair of player counts and a descending sweep - a "
                  "seeded call must return what it returned first; the first result is scribbled over before the second identically seeded call")
 
 
 def replay(doc: dict):
+    if doc.get("tail"):
+        st = tail_unit(("tail", [doc["generator"]], [doc["n"]], [doc["gen_seed"]]))
+        msgs = [v["message"] for v in st.violations]
+        return bool(msgs), "; ".join(msgs) if msgs else "in class for all four tail modes"
     if doc.get("interpreters"):
         st = interpreter_unit(("interpreters", [doc["generator"]], [doc["n"]], [doc["gen_seed"]]))
         msgs = [v["message"] for v in st.violations]
